@@ -18,6 +18,7 @@ package checks
 
 import (
 	"context"
+	"encoding/json"
 	"fmt"
 	"os"
 	"sort"
@@ -91,8 +92,44 @@ var c16Progress int64
 func runC16(args []string) int {
 	r := rep.New("C16", "model_checking")
 	if len(args) >= 2 && args[0] == "replay" {
-		fmt.Println("replay: the file names scenario and schedule (choice list); re-run `bin/check C16 quick`:", args[1])
-		return 0
+		b, err := os.ReadFile(args[1])
+		if err != nil {
+			rep.HarnessError("replay: %v", err)
+		}
+		var f struct {
+			Replay struct {
+				Scenario string `json:"scenario"`
+				Schedule []int  `json:"schedule"`
+			} `json:"replay"`
+		}
+		if err := json.Unmarshal(b, &f); err != nil {
+			rep.HarnessError("replay: %v", err)
+		}
+		for _, sc := range c16Scenarios() {
+			if sc.name != f.Replay.Scenario {
+				continue
+			}
+			var obs *c16Obs
+			vsched.Setup = sc.setup
+			res := vsched.Replay(f.Replay.Schedule, func() {
+				obs = &c16Obs{vals: map[string]any{}, errs: map[string]error{}}
+				sc.body(obs)
+			})
+			vsched.Setup = nil
+			if obs.finish != nil {
+				obs.finish()
+			}
+			out, viol := "", ""
+			if !res.Deadlock && res.Panic == nil {
+				out, viol = sc.check(obs)
+			}
+			fmt.Printf("scenario %s schedule %v\noutcome=%s\nviolation=%q deadlock=%v panic=%v\n", sc.name, f.Replay.Schedule, out, viol, res.Deadlock, res.Panic)
+			if viol != "" || res.Deadlock || res.Panic != nil {
+				return 1
+			}
+			return 0
+		}
+		rep.HarnessError("replay: unknown scenario %q", f.Replay.Scenario)
 	}
 	thorough := rep.Tier() == "thorough"
 	maxBound := 2
